@@ -126,6 +126,14 @@ def main():
         cov['trusted_base'] += [f"{uname}:{t}" for t in sorted(set(res['trusted']))]
         main_ok_fns, main_fail = set(), []
         for c in res['results']:
+            if c['suffix'] == 'canary':
+                # must-fail canaries: never counted as obligations; one that verifies makes the unit's result vacuous -> undecided
+                cn = c.get('canary') or {}
+                uinfo['canaries'] = dict(file=os.path.basename(c['file']), status=c['status'], expected_to_fail=len(cn.get('expected', [])),
+                                         verified_unexpectedly=cn.get('verified'), wall_s=round(c['wall'], 1), reason=c['reason'][:300])
+                if cn.get('verified'):
+                    undecided.append(f"unit {uname}: must-fail canaries verified (contradictory precondition or axioms, the proof would be vacuous): {cn['verified'][:8]}")
+                continue
             ok_fns = [driver.qual(b['function']) for b in c['breakdown'] if b.get('success')]
             bad_fns = [driver.qual(b['function']) for b in c['breakdown'] if not b.get('success')]
             nerr = len({e['fn'] for e in c['errors']}) if c['status'] != 'pass' else 0
